@@ -147,13 +147,13 @@ impl<const L: usize> Mkt for OrderBook<L> {
         self.get_time()
     }
     fn set_time(&mut self, t: u64) {
-        OrderBook::set_time(self, t)
+        let _ = OrderBook::set_time(self, t);
     }
     fn enable_trading(&mut self) {
-        OrderBook::enable_trading(self)
+        let _ = OrderBook::enable_trading(self);
     }
     fn disable_trading(&mut self) {
-        OrderBook::disable_trading(self)
+        let _ = OrderBook::disable_trading(self);
     }
     fn set_trading_asset(&mut self, _a: usize, on: bool) {
         if on {
@@ -163,7 +163,7 @@ impl<const L: usize> Mkt for OrderBook<L> {
         }
     }
     fn reset_trade_vols(&mut self) {
-        self.reset_trade_vol()
+        let _ = self.reset_trade_vol();
     }
     fn create(&mut self, _a: usize, bid: bool, vol: u32, trader: u32, price: Option<u32>) -> Result<(usize, usize), String> {
         self.create_order(side(bid), vol, trader, price).map(|i| (0, i)).map_err(|e| e.to_string())
@@ -172,20 +172,20 @@ impl<const L: usize> Mkt for OrderBook<L> {
         self.create_and_place_order(side(bid), vol, trader, price).map(|i| (0, i)).map_err(|e| e.to_string())
     }
     fn place(&mut self, _a: usize, id: usize) {
-        self.place_order(id)
+        let _ = self.place_order(id);
     }
     fn cancel(&mut self, _a: usize, id: usize) {
-        self.cancel_order(id)
+        let _ = self.cancel_order(id);
     }
     fn modify(&mut self, _a: usize, id: usize, p: Option<u32>, v: Option<u32>) {
-        self.modify_order(id, p, v)
+        let _ = self.modify_order(id, p, v);
     }
     fn event(&mut self, _a: usize, k: EvKind, id: usize, p: Option<u32>, v: Option<u32>) {
-        self.process_event(match k {
+        let _ = self.process_event(match k {
             EvKind::New => Event::New { order_id: id },
             EvKind::Cancel => Event::Cancellation { order_id: id },
             EvKind::Modify => Event::Modify { order_id: id, new_price: p, new_vol: v },
-        })
+        });
     }
     fn obs(&self, _a: usize, with_mid: bool) -> BookObs {
         book_obs(self, with_mid)
@@ -222,24 +222,24 @@ impl<const A: usize, const L: usize> Mkt for Market<A, L> {
         self.get_time()
     }
     fn set_time(&mut self, t: u64) {
-        Market::set_time(self, t)
+        let _ = Market::set_time(self, t);
     }
     fn enable_trading(&mut self) {
-        Market::enable_trading(self)
+        let _ = Market::enable_trading(self);
     }
     fn disable_trading(&mut self) {
-        Market::disable_trading(self)
+        let _ = Market::disable_trading(self);
     }
     fn set_trading_asset(&mut self, a: usize, on: bool) {
         let b = self.get_order_book_mut(a);
         if on {
-            b.enable_trading()
+            let _ = b.enable_trading();
         } else {
-            b.disable_trading()
+            let _ = b.disable_trading();
         }
     }
     fn reset_trade_vols(&mut self) {
-        Market::reset_trade_vols(self)
+        let _ = Market::reset_trade_vols(self);
     }
     fn create(&mut self, a: usize, bid: bool, vol: u32, trader: u32, price: Option<u32>) -> Result<(usize, usize), String> {
         self.create_order(a, side(bid), vol, trader, price).map_err(|e| e.to_string())
@@ -248,20 +248,20 @@ impl<const A: usize, const L: usize> Mkt for Market<A, L> {
         self.create_and_place_order(a, side(bid), vol, trader, price).map_err(|e| e.to_string())
     }
     fn place(&mut self, a: usize, id: usize) {
-        self.place_order((a, id))
+        let _ = self.place_order((a, id));
     }
     fn cancel(&mut self, a: usize, id: usize) {
-        self.cancel_order((a, id))
+        let _ = self.cancel_order((a, id));
     }
     fn modify(&mut self, a: usize, id: usize, p: Option<u32>, v: Option<u32>) {
-        self.modify_order((a, id), p, v)
+        let _ = self.modify_order((a, id), p, v);
     }
     fn event(&mut self, a: usize, k: EvKind, id: usize, p: Option<u32>, v: Option<u32>) {
-        self.process_event(match k {
+        let _ = self.process_event(match k {
             EvKind::New => Event::New { order_id: (a, id) },
             EvKind::Cancel => Event::Cancellation { order_id: (a, id) },
             EvKind::Modify => Event::Modify { order_id: (a, id), new_price: p, new_vol: v },
-        })
+        });
     }
     fn obs(&self, a: usize, with_mid: bool) -> BookObs {
         let mut o = book_obs(self.get_order_book(a), with_mid);
@@ -427,22 +427,22 @@ impl<const L: usize> EnvLike for Env<L> {
         L
     }
     fn step(&mut self, rng: &mut SeamRng) {
-        Env::step(self, rng)
+        let _ = Env::step(self, rng);
     }
     fn enable_trading(&mut self) {
-        Env::enable_trading(self)
+        let _ = Env::enable_trading(self);
     }
     fn disable_trading(&mut self) {
-        Env::disable_trading(self)
+        let _ = Env::disable_trading(self);
     }
     fn place(&mut self, _a: usize, bid: bool, vol: u32, trader: u32, price: Option<u32>) -> Result<(usize, usize), String> {
         self.place_order(side(bid), vol, trader, price).map(|i| (0, i)).map_err(|e| e.to_string())
     }
     fn cancel(&mut self, _a: usize, id: usize) {
-        self.cancel_order(id)
+        let _ = self.cancel_order(id);
     }
     fn modify(&mut self, _a: usize, id: usize, p: Option<u32>, v: Option<u32>) {
-        self.modify_order(id, p, v)
+        let _ = self.modify_order(id, p, v);
     }
     fn time(&self) -> u64 {
         self.get_orderbook().get_time()
@@ -488,22 +488,22 @@ impl<const A: usize, const L: usize> EnvLike for MarketEnv<A, L> {
         L
     }
     fn step(&mut self, rng: &mut SeamRng) {
-        MarketEnv::step(self, rng)
+        let _ = MarketEnv::step(self, rng);
     }
     fn enable_trading(&mut self) {
-        MarketEnv::enable_trading(self)
+        let _ = MarketEnv::enable_trading(self);
     }
     fn disable_trading(&mut self) {
-        MarketEnv::disable_trading(self)
+        let _ = MarketEnv::disable_trading(self);
     }
     fn place(&mut self, a: usize, bid: bool, vol: u32, trader: u32, price: Option<u32>) -> Result<(usize, usize), String> {
         self.place_order(a, side(bid), vol, trader, price).map_err(|e| e.to_string())
     }
     fn cancel(&mut self, a: usize, id: usize) {
-        self.cancel_order((a, id))
+        let _ = self.cancel_order((a, id));
     }
     fn modify(&mut self, a: usize, id: usize, p: Option<u32>, v: Option<u32>) {
-        self.modify_order((a, id), p, v)
+        let _ = self.modify_order((a, id), p, v);
     }
     fn time(&self) -> u64 {
         self.get_market().get_time()
